@@ -95,6 +95,9 @@ fn run_program(case: &Value) -> Value {
         }
         "solver" => {
             let goal: G = b.goal::<G>(&case["goal"]);
+            if case["engine"].as_bool().unwrap_or(false) {
+                install_engine_observer(id.clone());
+            }
             let solver: Solver<VU, E> = Solver::new((), false);
             let mut solver = solver;
             let mut stream = solver.start(&goal, State::new(VU::default()));
@@ -128,6 +131,27 @@ fn run_program(case: &Value) -> Value {
            "msg": "", "loc": ""})
 }
 
+/// Records the stream skeleton at every iteration of the loop of `Solver::next`.
+fn install_engine_observer(id: Value) {
+    #[cfg(proto_vulcan_verif)]
+    {
+        proto_vulcan::verif::set_observer(Some(Box::new(move |_what, any| {
+            if let Some(stream) = any.downcast_ref::<proto_vulcan::stream::Stream<VU, E>>() {
+                log(json!({"case": id, "k": "engine", "tick": ticks(), "skel": pvh::skel::stream(stream)}));
+            }
+        })));
+    }
+    #[cfg(not(proto_vulcan_verif))]
+    {
+        let _ = id;
+    }
+}
+
+fn clear_engine_observer() {
+    #[cfg(proto_vulcan_verif)]
+    proto_vulcan::verif::set_observer(None);
+}
+
 fn run_case(case: &Value) -> Vec<Value> {
     LOG.with(|l| l.borrow_mut().clear());
     PANIC_INFO.with(|p| *p.borrow_mut() = None);
@@ -144,6 +168,7 @@ fn run_case(case: &Value) -> Vec<Value> {
         other => panic!("harness: unknown kind {}", other),
     }));
     arm(0, 0);
+    clear_engine_observer();
     let end = match res {
         Ok(end) => end,
         Err(payload) => {
